@@ -305,6 +305,13 @@ def run(ctx, rep):
              "NetrefClass": lambda c_: MIc.ModelObj("descriptor", {"owner": c_}),
              "_make_method": lambda n_, d_: ("forwarder", n_, d_), "BaseNetref": BASE,
              "type": lambda n_, b_, ns_: ("class", n_, tuple(b_), dict(ns_))}
+    # the table of builtin types by name, whatever the module calls it: a module-level `{}` that class_factory consults with .get()
+    for c_ in A.calls(fcf.node):
+        if isinstance(c_.func, ast.Attribute) and c_.func.attr == "get" and isinstance(c_.func.value, ast.Name):
+            nm_ = c_.func.value.id
+            tl_ = fcf.module.toplevel.get(nm_)
+            if tl_ and all(isinstance(v_, ast.Dict) and not v_.keys for v_ in tl_):
+                globs[nm_] = globs["_normalized_builtin_types"]
     methods_in = [("go", "doc-go"), ("__len__", "doc-len"), ("__class__", "x"), ("__del__", "y"), ("____conn__", "z"),
                   ("__getattribute__", "w"), ("fetch", None), ("__format__", "f"), ("__sizeof__", "s"), ("__iter__", "i"),
                   ("__call__", "c"), ("__getstate__", "g")]
@@ -348,7 +355,9 @@ def run(ctx, rep):
     bad_sel, bad_name = [], []
     for nm, (hname, closed) in sorted(expect.items()):
         try:
-            fo = MI.call_function(fm.node, [nm, DOC])
+            ex_mm = {}
+            ex_mm["__global_lookup__"] = K.module_function_lookup(ctx, fm.module, ex_mm)      # (module-level constants of netref.py)
+            fo = MI.call_function(fm.node, [nm, DOC], ex_mm)
         except MI.Raised as ex:
             fo = None
         if not isinstance(fo, MI.FuncObj):
